@@ -552,14 +552,14 @@ func (fr *Frame) evalCall(e *CExpr, ctx *evalCtx) *Val {
 		if x.sort != sIfc || args[1].Kind == "" {
 			efail("typeIs(iface, T)")
 		}
-		t := fr.eng.parseType(args[1].String())
+		t := fr.eng.parseType(typeArg(args[1]))
 		if t == nil {
 			efail("typeIs: unknown type %s", args[1])
 		}
 		return boolVal(eq(iTag(x.t), intLit(int64(fr.eng.typeTag(t)))))
 	case "ptrOf": // payload of an interface value, typed as the given pointer type
 		x := fr.eval1(args[0], ctx)
-		t := fr.eng.parseType(args[1].String())
+		t := fr.eng.parseType(typeArg(args[1]))
 		if t == nil || x.sort != sIfc {
 			efail("ptrOf(iface, *T)")
 		}
@@ -617,6 +617,13 @@ func (fr *Frame) evalCall(e *CExpr, ctx *evalCtx) *Val {
 	}
 	efail("unknown function %q in specification", name)
 	return nil
+}
+
+func typeArg(e *CExpr) string {
+	if e.Kind == "str" {
+		return e.Name
+	}
+	return e.String()
 }
 
 func (fr *Frame) rankTerm(s string) string {
